@@ -233,6 +233,10 @@ def defects(base):
                 yield name + ":no-example", replaced(position, row[:2] + [""] + row[3:6] + [value]), position + 1
         if field_type == "Constant":
             yield "constant-marked-empty-with-rule", replaced(position, with_cell(3, "X")), position + 1
+        if field_type == "Integer" and fmt != "fixed":
+            # an Integer field whose range would come from its length: the length itself is no positive range
+            for value in ("0", "-1...5", "...0", "-3...3", "0...0", "-2"):
+                yield "integer-length-not-positive:no-rule", replaced(position, row[:2] + [""] + row[3:4] + [value, "Integer", ""]), position + 1
         if field_type == "Integer":
             yield "length-inconsistent-with-integer-rule", replaced(position, row[:4] + ["1" if fmt != "fixed" else "1", "Integer", "10...99"]), position + 1
         bad_example = {"Integer": "abc", "Text": "x" * 11 if fmt != "fixed" else "x" * 11, "Choice": "q", "DateTime": "2000-02-31", "Decimal": "1,x", "Pattern": "xyz", "RegEx": "12", "Constant": "Q"}[field_type]
